@@ -263,11 +263,27 @@ class MiscStr:
         raise Unsupported(f'miscleavages.{name}')
 
 
+class ColOpt:
+    """--tx-id-col / --quant-col: a 1-based column number or a column name of the header line"""
+    def __init__(self, e, name):
+        self.name = name
+        self.decimal = e.bool(f'{name}_is_a_number')
+        self.value = e.int(f'{name}_number')
+
+    def sym_method(self, I, name, a, k):
+        if name == 'isdecimal':
+            return self.decimal
+        raise Unsupported(f'column option .{name}')
+
+    def sym_int(self, I):
+        return self.value
+
+
 @register
 class FilterFastaCLI(Contract):
     path, qualname, props = FFC, 'filter_fasta', ('C19',)
     assumptions = ('assumed: load_coding_transcripts, VariantPeptidePool.load, load_expression_table, SeqIO.parse, open are external '
-                   '(their results are opaque values whose identity is followed to the filter call); column options are numeric, no skipped lines',)
+                   '(their results are opaque values whose identity is followed to the filter call); the expression table is read through a handle whose readline calls are counted',)
 
     def setup(self, I):
         e = I.e
@@ -278,11 +294,17 @@ class FilterFastaCLI(Contract):
                         keep_canonical=e.bool('keep_canonical'))
         st.cutoff = e.real('quant_cutoff')
         st.enzyme = SymStr(z3.Const('enzyme', e.StrSort))
+        st.skip = e.int('skip_lines')
+        e.assume(st.skip >= 0)
+        st.delim = SymObj('Delimiter19')
+        st.reads = 0                      # number of handle.readline() calls on the expression table
+        st.txcol, st.qcol = ColOpt(e, 'tx_id_col'), ColOpt(e, 'quant_col')
+        st.table_call = None
         ns = SymObj('Namespace', input_path=OpaqueStr(['in']), output_path=OpaqueStr(['out']),
                     miscleavages=MiscStr(st.a, st.b) if e.branch(st.has_misc, '--miscleavages given') else None,
                     exprs_table=OpaqueStr(['exprs']) if e.branch(st.has_exprs, '--exprs-table given') else None,
                     denylist=OpaqueStr(['deny']) if e.branch(st.has_deny, '--denylist given') else None,
-                    skip_lines=0, tx_id_col='1', quant_col='2', delimiter='\t', quant_cutoff=st.cutoff, enzyme=st.enzyme,
+                    skip_lines=st.skip, tx_id_col=st.txcol, quant_col=st.qcol, delimiter=st.delim, quant_cutoff=st.cutoff, enzyme=st.enzyme,
                     index_dir=None, annotation_gtf=None, **st.flags)
         st.coding, st.exprs, st.pool = SymObj('CodingTx'), SymObj('Exprs'), SymObj('PoolStub19')
         st.deny_items = [SymObj('FastaRec', seq=SymObj('SeqA')), SymObj('FastaRec', seq=SymObj('SeqB'))]
@@ -300,9 +322,24 @@ class FilterFastaCLI(Contract):
         reg.func_('moPepGen/cli/common.py', 'validate_file_format', noop)
         reg.func_('moPepGen/cli/common.py', 'print_start_message', noop)
         reg.func_(FFC, 'load_coding_transcripts', lambda I, a, k: c._cur.coding)
-        reg.func_(FFC, 'load_expression_table', lambda I, a, k: c._cur.exprs)
+        def load_table(I, a, k):
+            st = c._cur
+            st.table_call = dict(k, _pos=list(a), _reads=st.reads)
+            return st.exprs
+        reg.func_(FFC, 'load_expression_table', load_table)
         reg.ext_('open', lambda I, a, k: SymObj('File', path=a[0]))
-        reg.method_('File', 'readline', lambda I, o, a, k: OpaqueStr(['line']))
+        def readline(I, o, a, k):
+            st = c._cur
+            st.reads = st.reads + 1
+            return SymObj('TableLine19', k=st.reads - 1)
+        reg.method_('File', 'readline', readline)
+        reg.method_('TableLine19', 'rstrip', lambda I, o, a, k: o)
+
+        def split_header(I, o, a, k):
+            I.e.prove('C19/cli/header-split-by-the-given-delimiter', len(a) == 1 and a[0] is c._cur.delim)
+            return SymObj('Header19', k=o.fields['k'])
+        reg.method_('TableLine19', 'split', split_header)
+        reg.method_('Header19', 'index', lambda I, o, a, k: SymObj('HeaderIndex19', of=a[0], line=o.fields['k']))
         reg.method_('VariantPeptidePool', 'load', lambda I, o, a, k: c._cur.pool)
         reg.ext_('SeqIO.parse', lambda I, a, k: list(c._cur.deny_items))
         reg.ext_('Bio.SeqIO.parse', lambda I, a, k: list(c._cur.deny_items))
@@ -319,8 +356,35 @@ class FilterFastaCLI(Contract):
         reg.method_('PoolStub19', 'filter', do_filter)
         reg.method_('FilteredPool', 'write', lambda I, o, a, k: c._cur.writes.append(a))
 
+    def skip_havoc(self, I, env, k):
+        st = self._cur
+        st.reads = I.e.int('lines_read_so_far')
+
+    def skip_inv(self, I, env, k):
+        st = self._cur
+        i = env['i']
+        return [('one-line-read-per-skipped-line', z3.And(st.reads == i, i == k, 0 <= i, i <= st.skip))]
+
+    @property
+    def loops(self):
+        return {0: LoopSpec(inv=self.skip_inv, havoc=self.skip_havoc)}
+
     def post_return(self, I, st, ret):
         e = I.e
+        tc = st.table_call
+        if tc is not None:
+            by_name = z3.Or(z3.Not(st.txcol.decimal), z3.Not(st.qcol.decimal))
+            e.prove('C19/cli/table-read-after-skipping-the-given-lines-and-the-header-line-iff-a-column-is-named',
+                    z3.And(not tc['_pos'], tc.get('handle') is not None, tc['_reads'] == st.skip + z3.If(by_name, 1, 0), tc.get('delim') is st.delim))
+
+            def col_ok(got, opt):
+                if is_z3(got):
+                    return z3.And(opt.decimal, got == opt.value - 1)
+                if isinstance(got, SymObj) and got.cls == 'HeaderIndex19':
+                    return z3.And(z3.Not(opt.decimal), got.fields['of'] is opt, got.fields['line'] == st.skip)
+                return False
+            e.prove('C19/cli/transcript-column=number-minus-one-or-its-position-in-the-header', col_ok(tc.get('tx_col'), st.txcol))
+            e.prove('C19/cli/quantity-column=number-minus-one-or-its-position-in-the-header', col_ok(tc.get('quant_col'), st.qcol))
         e.prove('C19/cli/filter-called-once-and-its-result-written', len(st.calls) == 1 and len(st.writes) == 1)
         if len(st.calls) != 1:
             return
